@@ -148,6 +148,28 @@ def main():
         lab = int(dup_r.index[-1])
         both("drop(index=label) with repeated labels", lambda: dup_m.drop(index=[lab]), lambda: dup_r.drop(index=[lab]), log)
         both("drop(index=unknown label)", lambda: dup_m.drop(index=[987]), lambda: dup_r.drop(index=[987]), log)
+        # boolean Series selectors and Series assignment align by index LABEL (frame rows shuffled, labels kept)
+        sh_m, sh_r = long_m.iloc[order, :], long_r.iloc[order, :]
+        bits = [rng.random() < 0.5 for _ in range(nrows)]
+        mask_m = PD.Series(list(bits), None, PD.Index.range(nrows))
+        mask_r = pd.Series(list(bits))
+        both("df[bool Series with a default index] on a shuffled frame", lambda: sh_m[mask_m], lambda: sh_r[mask_r], log)
+        both("df.loc[bool Series] on a shuffled frame", lambda: sh_m.loc[mask_m], lambda: sh_r.loc[mask_r], log)
+        both("df.loc[bool list] (positional)", lambda: sh_m.loc[list(bits)], lambda: sh_r.loc[list(bits)], log)
+        short_m, short_r = PD.Series(list(bits[:-1]), None, PD.Index.range(nrows - 1)), pd.Series(list(bits[:-1]))
+        if nrows > 1:
+            both("df.loc[bool Series lacking a label]", lambda: sh_m.loc[short_m], lambda: sh_r.loc[short_r], log)
+        def set_m():
+            f = sh_m.copy(); f["extra"] = PD.Series([float(i) for i in range(nrows)], None, PD.Index.range(nrows)); return f
+        def set_r():
+            f = sh_r.copy(); f["extra"] = pd.Series([float(i) for i in range(nrows)]); return f
+        both("df[col] = Series (aligned by label)", set_m, set_r, log)
+        ge_m = PD.DataFrameType()({"p": [float(i % 3 - 1) for i in range(nrows)], "q": [float(i % 2) for i in range(nrows)]})
+        ge_r = pd.DataFrame({"p": [float(i % 3 - 1) for i in range(nrows)], "q": [float(i % 2) for i in range(nrows)]})
+        a_ = [bool(c) for c in (ge_m >= 0).all(axis=1).cells]
+        b_ = [bool(c) for c in (ge_r >= 0).all(axis=1)]
+        if a_ != b_:
+            log.append(f"(df >= 0).all(axis=1): model {a_} pandas {b_}")
         # get_indexer
         tgt = list(items[0]) + ["zz"]
         gm = PD.Index([(x,) for x in items[0]], [None]).get_indexer(tgt)
